@@ -140,25 +140,36 @@ pub fn deserialize_schedule(str: &str) -> Option<Schedule> {
     let str: String = str.chars().filter(|c| !c.is_whitespace()).collect();
     let bytes = hex::decode(str).ok()?;
 
-    let version = bytes[0];
+    let version = *bytes.first()?;
     if version != SCHEDULE_MAGIC_V2 {
         return None;
     }
     let mut bytes = &bytes[1..];
 
-    let task_id_bits = bytes.read_u64_varint().ok()? as usize;
-    let schedule_len = bytes.read_u64_varint().ok()? as usize;
+    let task_id_bits = usize::try_from(bytes.read_u64_varint().ok()?).ok()?;
+    let schedule_len = usize::try_from(bytes.read_u64_varint().ok()?).ok()?;
     let seed = bytes.read_u64_varint().ok()?;
 
+    // The encoder always uses between 1 and `usize::BITS` bits per task id
+    if task_id_bits == 0 || task_id_bits > usize::BITS as usize {
+        return None;
+    }
+
     let encoded = BitSlice::<_, Lsb0>::from_slice(bytes);
+    // Every step takes at least one bit, so a declared length beyond that cannot be honest; bail
+    // out before trying to allocate room for it.
+    if schedule_len > encoded.len() {
+        return None;
+    }
     let mut offset = 0usize;
     let mut steps = Vec::with_capacity(schedule_len);
     while steps.len() < schedule_len {
-        if *encoded.get(offset).unwrap() {
+        // A string that was cut short runs out of bits before it runs out of declared steps
+        if *encoded.get(offset)? {
             steps.push(ScheduleStep::Random);
             offset += 1;
         } else {
-            let tid = encoded[offset + 1..offset + 1 + task_id_bits].load::<usize>();
+            let tid = encoded.get(offset + 1..offset + 1 + task_id_bits)?.load::<usize>();
             steps.push(ScheduleStep::Task(TaskId::from(tid)));
             offset += 1 + task_id_bits;
         }
